@@ -8,6 +8,7 @@ import (
 
 	"github.com/mmcloughlin/addchain"
 	"github.com/mmcloughlin/addchain/acc"
+	"github.com/mmcloughlin/addchain/acc/ast"
 	"github.com/mmcloughlin/addchain/acc/ir"
 	"github.com/mmcloughlin/addchain/acc/printer"
 	"verif/harness/c04c16"
@@ -60,6 +61,29 @@ func dangling(q *ir.Program) bool {
 
 func oracle(c, res string) string {
 	f := strings.Split(c, " ")
+	if f[0] == "cbuild" {
+		return c04c16.CheckConcurrent(c, res, func(p addchain.Program, s *ast.Chain) string {
+			chain, ops, _, err := c04c16.Interpret(s)
+			if err != nil {
+				return "built script has no meaning: " + err.Error()
+			}
+			if !lib.EqualInts(chain, c04c16.Values(p)) || !c04c16.SameUpToOrder(ops, p) {
+				return "built script computes a different chain"
+			}
+			text, err := printer.String(s)
+			if err != nil {
+				return "print: " + err.Error()
+			}
+			l, err := acc.LoadString(text)
+			if err != nil {
+				return "printed script does not load: " + err.Error()
+			}
+			if !lib.EqualInts(l.Chain, c04c16.Values(p)) || !c04c16.SameUpToOrder(l.Program, p) {
+				return "printed script loads to a different chain"
+			}
+			return ""
+		})
+	}
 	p := c04c16.ParseOps(f[1])
 	if !c04c16.Valid(p) {
 		return "" // outside the quantifier; compared with the model only
@@ -202,11 +226,14 @@ func oracle(c, res string) string {
 func main() {
 	lib.Main(lib.Prop{
 		ID:     "C04",
-		Gen:    c04c16.Gen([]string{"decompile", "build", "expand", "retranslate", "dangling"}, []string{"rebuild"}),
+		Gen:    c04c16.Gen([]string{"decompile", "build", "expand", "retranslate", "dangling"}, []string{"rebuild"}, 6),
 		Neighbours: c04c16.Neighbours,
 		Run:    c04c16.Run,
 		Oracle: oracle,
 		Nontrivial: func(c, res string) bool {
+			if strings.HasPrefix(c, "cbuild ") {
+				return strings.HasPrefix(res, "ok ")
+			}
 			p := c04c16.ParseOps(strings.Split(c, " ")[1])
 			return strings.HasPrefix(res, "ok ") && len(p) >= 3 && c04c16.Valid(p)
 		},
